@@ -37,6 +37,9 @@ const TEXTS: &[&str] = &[
     "The the cat sat.\n\nAn second paragraph with zorblaxy in it.\n",
     "",
     "Say hello to my wibblet, an friend.\n",
+    // dialect-dependent spellings
+    "The colour of the neighbour's car is grey.\n",
+    "We realize the color of the center is gray.\n",
 ];
 
 const CONFIGS: &[&str] = &[
